@@ -156,11 +156,75 @@ Definition set_seq (m : msg) (q : N) : msg :=
 Definition rep_msgs (k : nat) (m : msg) : list msg :=
   map (fun i => set_seq m ((m_seq m + N.of_nat i) mod 4294967296)%N) (seq 0 k).
 
+(* JSON framing residue. The driver decodes the JSON body with encoding/json and digests the
+   decoded entries. json.Marshal writes every byte that does not start a well-formed UTF-8
+   sequence (utf8.DecodeRune = (RuneError, 1)) as \ufffd, so such a byte comes back as EF BF BD;
+   everything else round-trips. [utf8_head] is the length of the well-formed sequence at the head
+   of the string (0: none). *)
+Definition ain (lo hi : N) (c : ascii) : bool := (lo <=? N_of_ascii c)%N && (N_of_ascii c <=? hi)%N.
+Definition utf8_head (s : string) : nat :=
+  match s with
+  | EmptyString => 0
+  | String b0 r0 =>
+      if (N_of_ascii b0 <? 128)%N then 1
+      else match r0 with
+      | EmptyString => 0
+      | String b1 r1 =>
+          if ain 194 223 b0 then (if ain 128 191 b1 then 2 else 0)
+          else match r1 with
+          | EmptyString => 0
+          | String b2 r2 =>
+              if ain 224 224 b0 then (if ain 160 191 b1 && ain 128 191 b2 then 3 else 0)
+              else if ain 225 236 b0 || ain 238 239 b0 then (if ain 128 191 b1 && ain 128 191 b2 then 3 else 0)
+              else if ain 237 237 b0 then (if ain 128 159 b1 && ain 128 191 b2 then 3 else 0)
+              else match r2 with
+              | EmptyString => 0
+              | String b3 _ =>
+                  if ain 240 240 b0 then (if ain 144 191 b1 && ain 128 191 b2 && ain 128 191 b3 then 4 else 0)
+                  else if ain 241 243 b0 then (if ain 128 191 b1 && ain 128 191 b2 && ain 128 191 b3 then 4 else 0)
+                  else if ain 244 244 b0 then (if ain 128 143 b1 && ain 128 191 b2 && ain 128 191 b3 then 4 else 0)
+                  else 0
+              end
+          end
+      end
+  end.
+Definition ufffd : string :=
+  String (ascii_of_N 239) (String (ascii_of_N 191) (String (ascii_of_N 189) "")).
+Fixpoint json_coerce (fuel : nat) (s : string) : string :=
+  match fuel, s with
+  | S f, String b r =>
+      match utf8_head s with
+      | 0 => ufffd ++ json_coerce f r
+      | 1 => String b (json_coerce f r)
+      | _ => match r with
+             | String b1 r1 =>
+                 match utf8_head s with
+                 | 2 => String b (String b1 (json_coerce f r1))
+                 | _ => match r1 with
+                        | String b2 r2 =>
+                            match utf8_head s with
+                            | 3 => String b (String b1 (String b2 (json_coerce f r2)))
+                            | _ => match r2 with
+                                   | String b3 r3 => String b (String b1 (String b2 (String b3 (json_coerce f r3))))
+                                   | EmptyString => s
+                                   end
+                            end
+                        | EmptyString => s
+                        end
+                 end
+             | EmptyString => s
+             end
+      end
+  | _, _ => s
+  end.
+Definition json_entry (s : string) : string := json_coerce (String.length s) s.
+
 Definition show_resp (r : resp) : list string :=
   match r with
   | R405 => ["q"; "405"]
   | R400 => ["q"; "400"]
-  | R200 j l => ["q"; "200"; if j then "json" else "text"; show_nat (length l); digest l]
+  | R200 j l => ["q"; "200"; if j then "json" else "text"; show_nat (length l);
+                 digest (if j then map json_entry l else l)]
   end.
 
 (* events of a case (the history the theorems quantify over) *)
